@@ -80,4 +80,10 @@ double low_word(const SymEngine::Integer &x)
     }
     return 0.0;
 }
+
+// R29.4: machine-word read with no fits-test at all
+long unguarded_word(const SymEngine::Integer &x)
+{
+    return SymEngine::mp_get_si(x.as_integer_class());
+}
 } // namespace verif_positive
